@@ -543,6 +543,12 @@ def mk_history(rng, tasks, target, focus, strategies):
                "stop_early": False, "script": {}, "strategy": rng.choice(strategies), "seed": rng.randrange(1 << 30)}
         if focus == "wide":
             inv["jobs"] = rng.choice([1, 2, 2, 3, 3, 4, 6])
+            if rng.random() < 0.35:
+                # failures (incl. tasks that cannot be launched) while slots are in use
+                cl = [x for x in gen.closure(tb, tgt) if tb[x]["kind"] in PROC]
+                rng.shuffle(cl)
+                for x in cl[:rng.choice([1, 1, 2, 3])]:
+                    inv["script"][x] = dict(rng.choice(FAULTS + [{"launch_fail": "exec"}, {"launch_fail": "chdir"}]))
         if focus == "faults" or (focus in ("live",) and rng.random() < 0.3) or (focus == "deps" and rng.random() < 0.15):
             cl = [x for x in gen.closure(tb, tgt) if tb[x]["kind"] in PROC]
             rng.shuffle(cl)
